@@ -12,6 +12,7 @@ import SnowProofs.Lemmas.Stencil1D
 import SnowProofs.Lemmas.RunBounds
 import SnowProofs.Lemmas.DefaultLink
 import SnowProofs.Props.C02
+import SnowProofs.Props.C05
 import Mathlib.Tactic.NormNum
 import Mathlib.Tactic.Positivity
 
@@ -842,6 +843,39 @@ theorem maxprinciple2D_published_coldest (p : Par ℝ) (f : Flags) (H : StabCtx 
     (fun j hj hle => ⟨by linarith [hanti j hj hle], by linarith [htop j hj hle]⟩) k hk
   simpa using h
 
+/-- a list whose consecutive entries do not rise is non-increasing between any two positions -/
+theorem antitone_of_consecutive (l : List ℝ) (h : ∀ i (hi : i + 1 < l.length), l[i + 1] ≤ l[i]) :
+    ∀ (d j : Nat) (hK : j + d < l.length), l[j + d] ≤ l[j]'(by omega) := by
+  intro d
+  induction d with
+  | zero => intro j hK; exact le_refl _
+  | succ d ih =>
+    intro j hK
+    have h1 := ih j (by omega)
+    have h2 := h (j + d) (by omega)
+    exact le_trans h2 h1
+
+/-- **`maxprinciple2D_published_run2D`** — the run as `_run_2D` performs it, WITHOUT hypotheses on the sampled
+programme: shelf or jacket configuration, a well-formed cooling programme (`C05.WF`: positive rate and step,
+holds between end and start temperature), the shelf samples `profile oc dt` of the model of `tempProfile`
+and the product loaded at the programme's start temperature.  In every completed run all reported
+cooling-stage temperatures lie between the coldest shelf temperature applied so far (that of the nucleation
+step) and the start temperature — `C05.profile_antitone` and `profile_bounds` discharge the programme
+hypotheses of `maxprinciple2D_published_coldest`. -/
+theorem maxprinciple2D_published_run2D (p : Par ℝ) (f : Flags) (H : StabCtx (mkCtx p f))
+    (hcfg : p.config ≠ Config.visf) (oc : OpCond ℝ) (dt0 : ℝ) (hwf : C05.WF oc dt0) (NtExp : Nat) (Frand : ℝ)
+    (cn : Option ℝ) (r : Result ℝ) (hr : run p f oc.start (profile oc dt0) NtExp Frand cn = .ok r)
+    (hiC : r.iCool < (profile oc dt0).length) (k : Nat) (hk : k < r.iSaveEnd) :
+    ∃ row, r.temp[k]? = some row ∧ Bdd ((profile oc dt0)[r.iCool]) oc.start row := by
+  apply maxprinciple2D_published_coldest p f H hcfg oc.start (profile oc dt0) NtExp Frand cn r hr hiC _ _ k hk
+  · intro j hj hle
+    have h := antitone_of_consecutive (profile oc dt0) (fun i hi => C05.profile_antitone oc dt0 hwf i hi)
+      (r.iCool - j) j (by omega)
+    have e : j + (r.iCool - j) = r.iCool := by omega
+    simpa [e] using h
+  · intro j hj _
+    exact (C05.profile_bounds oc dt0 hwf _ (List.getElem_mem hj)).2
+
 /-- 1D, loop states: coldest shelf so far ≤ every node ≤ `T_0` for a programme that has not risen -/
 theorem maxprinciple1D_cool_run_coldest (p : SnowIn ℝ) (g : Grid1D ℝ) (stride : Nat) (hv : p.visf = none)
     (hNz : 2 ≤ g.Nz) (hfo : 0 ≤ g.fo ∧ g.fo ≤ 1 / 2)
@@ -1168,6 +1202,110 @@ theorem nucleate1D_ice (q : SnowIn ℝ) (h : SolOK1 q) (hcp : 0 < q.const.cp_sol
   · have hb := (C02.nucleation_adiabatic_0D1D q (aget T j) hcp hm hDh h.mw h.ms h.kap h.dep hsc).2.2.1
     simp [maskNum, hsc, hb]
   · simp [maskNum, hsc]
+
+/-! #### … carried to the PUBLISHED ice rows of `run1DOn` -/
+
+/-- a published 1D row whose ice field is the liquidus ice (`iceNode1D`) of its own temperature field (°C) -/
+def RowIce (q : SnowIn ℝ) (den : ℝ) (r : Row ℝ) : Prop :=
+  ∀ j, j < r.temp.size → aget r.ice j = iceNode1D q den (aget r.temp j + lit 27315 2)
+
+theorem iterIdx_invariant {σ β : Type} (step : Nat → σ → β → σ) (P : σ → Prop)
+    (hstep : ∀ i s x, P s → P (step i s x)) : ∀ (xs : List β) (i0 : Nat) (s0 : σ), P s0 → P (iterIdx step xs i0 s0) := by
+  intro xs
+  induction xs with
+  | nil => intro i0 s0 h; simpa [iterIdx] using h
+  | cons x xs ih => intro i0 s0 h; simp only [iterIdx]; exact ih _ _ (hstep _ _ _ h)
+
+/-- every row saved by a solidification step satisfies `RowIce` with denominator `mass` -/
+theorem solidStep1D_rows (q : SnowIn ℝ) (g : Grid1D ℝ) (stride iEnd : Nat) (tNuc : ℝ) (i : Nat) (s : Solid1D ℝ)
+    (Tsh : ℝ) (h : ∀ r ∈ s.buf.toList, RowIce q q.const.mass r) :
+    ∀ r ∈ (solidStep1D q g stride iEnd tNuc i s Tsh).buf.toList, RowIce q q.const.mass r := by
+  set st := solidStep1D q g stride iEnd tNuc i s Tsh with hst
+  have hbuf : st.buf = (if i % stride == 0 then
+      saveRow NSave (s.buf, s.oob)
+        { step := iEnd + i, time := tNuc + g.dt * ofNat' i, shelf := Tsh - lit 27315 2,
+          temp := st.T.map (· - lit 27315 2), ice := st.w }
+      else (s.buf, s.oob)).1 := rfl
+  have hsz : st.T.size = g.Nz := by simp [hst, solidStep1D]
+  rw [hbuf]
+  split
+  · unfold saveRow
+    simp only []
+    split
+    · intro r hr
+      simp only [Array.toList_push, List.mem_append, List.mem_singleton] at hr
+      rcases hr with hr | rfl
+      · exact h r hr
+      · intro j hj
+        have hj' : j < st.T.size := by simpa using hj
+        simp only []
+        rw [Snow.aget_map _ _ j hj', solidStep1D_ice q g stride iEnd tNuc i s Tsh j (by omega)]
+        congr 1
+        ring
+    · exact h
+  · exact h
+
+/-- **published ice rows of the 1D model**: in the histories `run1DOn` publishes, the post-nucleation row
+(index `iSaveEnd`) and every solidification row (index `> iSaveEnd`) carry, node by node, the liquidus ice
+`iceNode1D` of their own reported temperature (denominators `m_w + m_s` resp. `mass`) — so
+`iceNode1D_range` gives `0 ≤ w_i < m_w/den`, ice iff `T < T_eq_l` and the freezing-point-depression
+relation for every published value (the cooling rows are zero: `no_ice_before_nucleation_1D`).
+Hypotheses: `SolOK1`, `0 < c_p`, `0 < mass`, `0 < Δh` (for the nucleation row). -/
+theorem ice_published_1D (q : SnowIn ℝ) (Nz : Nat) (old : Bool) (shelf : List ℝ) (hS : SolOK1 q)
+    (hcp : 0 < q.const.cp_solution) (hm : 0 < q.const.mass) (hDh : 0 < q.const.Dh)
+    (h : Array (Row ℝ)) (hh : (run1DOn q Nz old shelf).hist = some h) (k : Nat) (row : Row ℝ)
+    (hk : h[k]? = some row) (hge : (run1DOn q Nz old shelf).iSaveEnd ≤ k) :
+    (k = (run1DOn q Nz old shelf).iSaveEnd → RowIce q (q.const.mass_water + q.const.mass_solute) row)
+      ∧ ((run1DOn q Nz old shelf).iSaveEnd < k → RowIce q q.const.mass row) := by
+  revert hh hge
+  unfold run1DOn
+  dsimp only
+  rcases hc : cool1D q (grid1D q Nz) old shelf with ⟨_ | iE, s⟩
+  · intro hh; simp at hh
+  · dsimp only
+    by_cases hfit : s.buf.size < NSave
+    · rw [RunBounds.saveRow_fits' _ _ _ _ hfit]
+      dsimp only
+      split
+      · intro hh; simp at hh
+      · split
+        · intro hh; simp at hh
+        · split
+          · intro hh; simp at hh
+          · intro hh hge
+            simp only [Option.some.injEq] at hh
+            subst hh
+            have hge' : s.buf.size ≤ k := hge
+            constructor
+            · intro hkeq
+              have hkeq' : k = s.buf.size := hkeq
+              subst hkeq'
+              rw [Array.getElem?_append_left (by simp), Array.getElem?_push_eq] at hk
+              simp only [Option.some.injEq] at hk
+              subst hk
+              intro j hj
+              have hj' : j < (nucleate1D q s.T).1.size := by simpa using hj
+              have hjT : j < s.T.size := by simpa [nucleate1D] using hj'
+              simp only []
+              rw [Snow.aget_map _ _ j hj', nucleate1D_ice q hS hcp hm hDh s.T j hjT]
+              congr 1
+              ring
+            · intro hlt
+              have hlt' : s.buf.size < k := hlt
+              rw [Array.getElem?_append_right (by simp; omega)] at hk
+              have hmem : row ∈ (iterIdx (solidStep1D q (grid1D q Nz) (saveStride ((grid1D q Nz).NtExp - iE)) iE
+                  ((grid1D q Nz).dt * ofNat' iE)) (List.drop iE shelf) 0
+                  { T := (nucleate1D q s.T).1,
+                    w := Array.map (fun x => x / (q.const.mass_water + q.const.mass_solute)) (nucleate1D q s.T).2,
+                    buf := #[], oob := false, solEnd := none, sg := zero, sigma := #[] }).buf.toList := by
+                have := Array.mem_of_getElem? hk
+                have := Array.mem_toList_iff.mpr this
+                simp only [Array.toList_extract, List.extract_eq_drop_take, List.drop_zero, Nat.sub_zero] at this
+                exact List.mem_of_mem_take this
+              exact iterIdx_invariant _ (fun st => ∀ r ∈ st.buf.toList, RowIce q q.const.mass r)
+                (fun i st x hst => solidStep1D_rows q _ _ _ _ i st x hst) _ _ _ (by simp) row hmem
+    · rw [RunBounds.saveRow_full' _ _ _ _ hfit]
+      intro hh; simp at hh
 
 /-- **0D ice formula** (`iceFrac0D`, no mask): it IS the liquidus expression; it is in range at
 every temperature below the equilibrium freezing temperature (for the 0D model this is a
